@@ -34,7 +34,7 @@ type runner func(c *Case) []string
 // generator emits the cases of a property for a tier from a seeded PRNG.
 type generator func(tier string, rng *Rng, emit func(c Case))
 
-var runners = map[string]runner{}      // key: prop + "/" + op
+var runners = map[string]runner{}       // key: prop + "/" + op
 var generators = map[string]generator{} // key: prop
 
 func register(prop string, g generator, ops map[string]runner) {
